@@ -345,7 +345,11 @@ class Tracer:
         setattr(alg, name, wrapper)
 
     def step(self):
+        from vmon import predicates as _P
+
         alg = self.alg
+        _P.install_solver_logger()
+        err0 = _P.NATURAL_SOLVER_ERRORS[0]
         self.cur = {"phases": [], "pre": sets_of(alg), "round_pre": alg.round, "count_pre": alg.sample_count,
                     "cost_pre": getattr(alg, "total_cost", None), "req_start": len(self.rec.log),
                     "npoints_pre": len(alg.design_space.points) if hasattr(alg, "design_space") else None}
@@ -357,6 +361,9 @@ class Tracer:
             rec["returned"] = None
             rec["crash"] = e
             rec["crash_tb"] = traceback.format_exc()
+        rec["solver_errors"] = _P.NATURAL_SOLVER_ERRORS[0] - err0
+        if rec["solver_errors"]:
+            self.mon.count("natural_solver_errors", rec["solver_errors"])
         rec["post"] = sets_of(alg)
         rec["round_post"] = alg.round
         rec["count_post"] = alg.sample_count
